@@ -1,6 +1,24 @@
 """C07: physicality and conservation"""
 from . import phase_harness as PH
+from . import fock_harness as FH
+from . import fockgates as FG
+from . import common as C
 
 
 def build(ctx):
     PH.jobs(ctx, "physical")
+    FG.jobs(ctx, only=("loss_channel", "thermal_state"))
+    n, D = 3, 2
+    for pure in (True, False):
+        for k in range(n):
+            ctx.add("fock.unitary_spectators[%d].%s" % (k, "pure" if pure else "mixed"), FH.h_unitary_spectators,
+                    {"k": k, "n": n, "D": D, "pure": pure}, modules=C.fock_modules,
+                    functions=["Circuit.apply_gate_BLAS", "fockbackend.ops.partial_trace", "fockbackend.ops.trace"],
+                    bounds={"modes": n, "cutoff": D, "gate": "arbitrary U(2)"})
+    ctx.add("fock.mix", FH.h_mix, {"n": n, "D": D}, modules=C.fock_modules, functions=["fockbackend.ops.mix"],
+            bounds={"modes": n, "cutoff": D})
+    for modes in C.ordered_choices(n, 2)[:3]:
+        for rule in ("BS", "S2"):
+            ctx.add("fock.twomode_%s%s.mixed" % (rule, list(modes)), FH.h_twomode_sel,
+                    {"modes": list(modes), "n": n, "D": D, "pure": False, "rule": rule}, modules=C.fock_modules,
+                    functions=["Circuit.apply_twomode_gate"], bounds={"modes": n, "cutoff": D})
